@@ -2,6 +2,7 @@
 //
 //	go run . discardfacts    every value.Discard(x) call site of lib/query and lib/value
 //	go run . astwritefacts   every assignment of lib/query that writes through a parser.* value
+//	go run . stmtkinds       statement kinds and operand positions of the grammar vs the workloads of harness/cmd/c14
 //
 // Source tree: $VERIF_REPO (default /repo).  Standard library only (go/ast, go/types).
 // The analysis is conservative: whatever it cannot show harmless is reported (fresh=false /
@@ -35,6 +36,8 @@ func main() {
 		genDiscardFacts()
 	case "astwritefacts":
 		genAstWriteFacts()
+	case "stmtkinds":
+		genStmtKinds()
 	default:
 		fatal("unknown mode %q", mode)
 	}
